@@ -5,7 +5,7 @@
 use checks::indcheck::*;
 use checks::*;
 
-fn main() {
+pub fn main() {
 	refmodel::set_eps(eps());
 	refmodel::set_floor(ValueType::MIN_POSITIVE as f64);
 	let exe = std::env::args().next().unwrap_or_default();
@@ -172,6 +172,41 @@ fn main() {
 			let sys = IndSys::new(&format!("{name}/deviation/mid-range-parameters+volatile"), all, vec![ks[1]], vec![ks[1], ks[2]], oracle, true).with_zigzag().with_volatile();
 			h.go(&sys, &Limits::deviation(if thorough { 1 } else { 0 }, if thorough { 520 } else { 700 }).wall_secs(600), true);
 			tally!(sys);
+		}
+		// (10) every length parameter at once at its largest / its smallest accepted value (greedily, in the
+		// order of the fields and in the reverse order): steady / zigzag / volatile streams without deviation
+		{
+			let map = ind::json_map(&c.to_json().unwrap());
+			let mut cfgs: Vec<Box<dyn ind::IndCfg>> = vec![];
+			for (vals, rev) in [(["255", "254", "127", "100"], false), (["255", "254", "127", "100"], true), (["1", "2", "3", "4"], false), (["1", "2", "3", "4"], true)] {
+				let mut x = c.boxed_clone();
+				let mut keys: Vec<(&String, &serde_json::Value)> = map.iter().collect();
+				if rev {
+					keys.reverse();
+				}
+				for (k, v) in keys {
+					let kind = v.as_object().map(|o| { let k = o.keys().next().unwrap().clone(); if k == "lin_reg" { "linreg".to_string() } else { k } });
+					if !v.is_u64() && kind.is_none() {
+						continue;
+					}
+					for t in vals {
+						let text = match &kind { Some(kd) => format!("{kd}-{t}"), None => t.to_string() };
+						let mut y = x.boxed_clone();
+						if y.set(k, text).is_ok() && y.validate() {
+							x = y;
+							break;
+						}
+					}
+				}
+				if x.validate() && !cfgs.iter().any(|o| o.to_json().ok() == x.to_json().ok()) {
+					cfgs.push(x);
+				}
+			}
+			if !cfgs.is_empty() {
+				let sys = IndSys::new(&format!("{name}/deviation/all-lengths-at-an-extreme"), cfgs, vec![ks[1]], vec![ks[1], ks[2]], oracle, true).with_zigzag().with_volatile();
+				h.go(&sys, &Limits::deviation(0, if thorough { 900 } else { 600 }).wall_secs(600), true);
+				tally!(sys);
+			}
 		}
 		// (9) pairs of one length and one float parameter (thresholds scaled by a length, factors applied to
 		// a window): every combination of the mid-range lengths with the float values, steady / zigzag /
